@@ -1,7 +1,7 @@
 (* Property C04 - programs accepted by analysis are safe to evaluate. *)
 From Coq Require Import List ZArith Bool Permutation.
 From MV Require Import Datalog.Syntax Datalog.Interp Datalog.Solve Datalog.Lfp Analysis.RuleCheck Analysis.Declarative
-  Analysis.RuleCheckProofs Analysis.WildcardProofs Analysis.SafeEvalProofs.
+  Analysis.RuleCheckProofs Analysis.WildcardProofs Analysis.SafeEvalProofs Analysis.FaithfulProofs.
 Import ListNotations.
 Open Scope Z_scope.
 
@@ -208,3 +208,17 @@ Example accepted_head_ground_hyps :
   solve [] (fun _ => [(1, [num 4])]) 0 (cbody (replace_wildcards (rewrite letc))) [[]] = Some [[(1, num 4)]] /\
   emit_head (rewrite letc) [(1, num 4)] = Some (0, [num 9; num 5]).
 Proof. vm_compute. repeat split; reflexivity. Qed.
+
+(* ---- accepted_faithful, soundness half: NO LITERAL IS IGNORED. For every clause c as written
+   that analysis accepts (alias-free after rewriting), on every store: every solution s that the
+   left-to-right join computes on the rewritten, wildcard-replaced clause - restricted to the named
+   variables of c - is a declarative solution of the ORIGINAL clause: it assigns exactly the named
+   variables and every literal of c holds under it (wildcards existential inside their literal),
+   whatever order RewriteClause chose and whatever fresh names ReplaceWildcards invented. *)
+Theorem accepted_faithful_sound :
+  forall (c : clause) (Sneg I : list fact) (sols : list subst) (s : subst),
+  accepted c = true -> alias_free (rewrite c) = true ->
+  solve Sneg (fun _ => I) 0 (cbody (replace_wildcards (rewrite c))) [[]] = Some sols -> In s sols ->
+  decl_sol Sneg I c (restrict (named_vars c) s).
+Proof. exact accepted_sound_lemma. Qed.
+Print Assumptions accepted_faithful_sound.
